@@ -83,10 +83,10 @@ def cs_stage(ctx, pid, light=False):
     (c) trace validation; returns the events and the rejections that belong to property pid.  light: random behaviours only (the owner of
     the model, C10, runs everything)"""
     one = dict(CS_CONSTS, Keys='{"k1"}')
-    if not light:
+    if pid == "C10":         # the model's properties are checked on the model by its owner
         mc(ctx, "CsModel", cfgtext(invariants=CS_INVS, props=CS_PROPS, constants=dict(MaxHist=0, Record="FALSE", Scope='"core"', MaxLevel=0, **(one if ctx.quick() else CS_CONSTS)),
                                extra="VIEW View\n"), timeout=1800, heap="8g")
-        mc(ctx, "CsModel", cfgtext(invariants=CS_INVS, props=CS_PROPS, constants=dict(MaxHist=0, Record="FALSE", Scope='"all"', MaxLevel=5 if ctx.quick() else 7, **one),
+        mc(ctx, "CsModel", cfgtext(invariants=CS_INVS, props=CS_PROPS, constants=dict(MaxHist=0, Record="FALSE", Scope='"all"', MaxLevel=5 if ctx.quick() else 6, **one),
                                extra="VIEW View\nCONSTRAINT LevelBound\n"), timeout=3000, heap="8g")
     n, depth = (1200, 10) if ctx.quick() else (20000, 14)
     consts = dict(Record="TRUE", Scope='"all"', MaxLevel=0, **CS_CONSTS)
@@ -302,7 +302,7 @@ def c03(ctx):
     else:
         cases += wire_cases(ctx, "mut", [6, 7, 34, 35, 36], 0, range(1, 11))
         cases += wire_cases(ctx, "mut", [7], 1, [1, 4, 5, 6, 8])
-        cases += wire_cases(ctx, "mut", [7], 0, [1, 4, 6, 8], mutdepth=2)
+        cases += wire_cases(ctx, "mut", [7], 0, [1], mutdepth=2)           # pairs of edits: about 0.6 M cases per base (four bases exhausted the sandbox's memory)
     seen, out = set(), []
     for c in cases:
         k = (c["kind"], tuple(c["wire"]), tuple(c["ext"]), c["sigop"], c["alt"])
